@@ -351,7 +351,20 @@ def main(more: ilist.IList[tuple[int, int], Any]):
     f = filled.get_parent(z)
     g = filled.vacate(s, [(0, 0)])
     h = z[0:2, 1]
-    return (z, s, a, b, c, d, e, f, g, h)
+    i = spec.get_special_grid(grid_id="mem")
+    j = filled.vacate(i, more)
+    k = loaded(more)
+    return (z, s, a, b, c, d, e, f, g, h, i, j, k)
+"""
+# helpers shared by every kernel of spec_zone_forms: the outer one has no lookup of its own
+SPEC_ZONE_HELPERS = """
+@move
+def zone_of_mem():
+    return spec.get_static_trap(zone_id="mem")
+
+@move
+def loaded(sites: ilist.IList[tuple[int, int], Any]):
+    return filled.fill(zone_of_mem(), sites)
 """
 
 
@@ -364,20 +377,30 @@ def spec_zone_forms(ctx):
     from bloqade.shuttle.arch import ArchSpec, ArchSpecInterpreter, Layout
     from kirin.dialects import ilist
     FGc = FG()
-    mem = FGc.vacate(Grid.from_positions([0.0, 1.0, 2.5], [0.0, 2.0, 5.0]), [(0, 1), (2, 2)])
-    res = FGc.vacate(Grid.from_positions([-4.0, -2.0], [0.5]), [(1, 0)])
-    S = ArchSpec(layout=Layout({"mem": mem, "plain": Grid.from_positions([10.0, 11.0], [0.0])}, {"mem"}, {"mem"}, {"plain"}, special_grid={"res": res}))
     more = [(1, 1), (0, 1)]
-    want = (mem, res, FGc.vacate(mem, more), FGc.fill(mem, more), mem.shift(1.0, -1.0), res.repeat(2, 1, 30.0, 1.0),
-            mem.get_view(ilist.IList([0, 0, 2]), ilist.IList([1, 1])), mem.parent, FGc.vacate(res, [(0, 0)]), mem[0:2, 1])
+
+    def build(dx):
+        # "mem" names a static trap AND (another filled grid) a special grid
+        mem = FGc.vacate(Grid.from_positions([0.0 + dx, 1.0 + dx, 2.5 + dx], [0.0, 2.0, 5.0]), [(0, 1), (2, 2)])
+        res = FGc.vacate(Grid.from_positions([-4.0 - dx, -2.0], [0.5]), [(1, 0)])
+        smem = FGc.vacate(Grid.from_positions([40.0 + dx, 41.0 + dx], [7.0, 8.0]), [(1, 1)])
+        S = ArchSpec(layout=Layout({"mem": mem, "plain": Grid.from_positions([10.0 + dx, 11.0 + dx], [0.0])}, {"mem"}, {"mem"}, {"plain"}, special_grid={"res": res, "mem": smem}))
+        want = (mem, res, FGc.vacate(mem, more), FGc.fill(mem, more), mem.shift(1.0, -1.0), res.repeat(2, 1, 30.0, 1.0),
+                mem.get_view(ilist.IList([0, 0, 2]), ilist.IList([1, 1])), mem.parent, FGc.vacate(res, [(0, 0)]), mem[0:2, 1],
+                smem, FGc.vacate(smem, more), FGc.fill(mem, more))
+        return S, want
+    worlds = {"A": build(0.0), "B": build(100.0)}
+    helpers = {k: v for k, v in kernels.define(SPEC_ZONE_HELPERS).items() if k in ("zone_of_mem", "loaded")}
     n_ok = 0
-    for dec in ("move", "kernel", "tweezer"):
-        for how in ("run-time lookup", "(arch_spec=S)", "(arch_spec=S, fold=False)"):
+    # every kernel is defined for spec A, then B, then A again, over ONE set of helper kernels
+    for dec, how, which in [(d, h, w) for d in ("move", "kernel", "tweezer") for h in ("run-time lookup", "(arch_spec=S)", "(arch_spec=S, fold=False)") for w in ("A", "B", "A")]:
+        S, want = worlds[which]
+        if True:
             src = SPEC_ZONE_SRC.replace("{DEC}", dec + ("" if how == "run-time lookup" else how))
-            rep = {"spec_zone_src": src, "decorator": dec, "how": how}
+            rep = {"spec_zone_src": src, "decorator": dec, "how": how, "spec": which}
             ctx.evaluations += 1
             try:
-                m = kernels.define(src, kernel=prelude.kernel, S=S)["main"]
+                m = kernels.define(src, kernel=prelude.kernel, S=S, **helpers)["main"]
                 if how == "run-time lookup":
                     got = ArchSpecInterpreter(m.dialects, arch_spec=S).run(m, (ilist.IList(more),))
                 else:
@@ -385,14 +408,15 @@ def spec_zone_forms(ctx):
             except Exception as e:
                 ctx.fail({"kind": "kernel-raises", "decorator": dec, "spec_zone": how}, rep, f"@{dec} kernel reading filled-grid zones of the spec ({how}) raises {type(e).__name__}: {str(e)[:120]}")
                 continue
-            bad = [nm for nm, x, y in zip("zsabcdefgh", got, want) if show_val(x) != show_val(y) or not (x == y) or hash(x) != hash(y)]
+            NAMES = "zsabcdefghijk"
+            bad = [nm for nm, x, y in zip(NAMES, got, want) if show_val(x) != show_val(y) or not (x == y) or hash(x) != hash(y)]
             if bad:
                 ctx.fail({"kind": "kernel-vs-method", "decorator": dec, "spec_zone": how}, rep,
-                         f"@{dec} kernel reading filled-grid zones of the spec ({how}): values {bad} differ from the Python methods applied to the spec's zones, "
-                         f"e.g. {bad[0]} = {show_val(got['zsabcdefgh'.index(bad[0])])[:100]} instead of {show_val(want['zsabcdefgh'.index(bad[0])])[:100]}")
+                         f"@{dec} kernel reading filled-grid zones of spec {which} ({how}; defined for A, B, A over shared helpers): values {bad} differ from the Python methods applied to that spec's zones, "
+                         f"e.g. {bad[0]} = {show_val(got[NAMES.index(bad[0])])[:100]} instead of {show_val(want[NAMES.index(bad[0])])[:100]}")
             else:
                 n_ok += 1
-                ctx.nt(("spec-zone-form", dec, how))
+                ctx.nt(("spec-zone-form", dec, how, which))
     ctx.count("kernels reading filled-grid zones of the spec x kernel kinds x lookup routes: agree with the methods", n_ok)
 
 
